@@ -476,6 +476,15 @@ class PythonRegex(regex.Regex):
         self._python_regex = "".join(regex_temp)
 
     def _replace_shortcuts(self):
-        for to_replace, replacement in SHORTCUTS.items():
-            self._python_regex = self._python_regex.replace(to_replace,
-                                                            replacement)
+        # Read from left to right: a backslash and the symbol after it belong
+        # together, so "\\d" is an escaped backslash followed by the letter d
+        # and an escaped space is already what a space is turned into
+        regex_temp = []
+        idx = 0
+        while idx < len(self._python_regex):
+            symbol = self._python_regex[idx]
+            if symbol == "\\" and idx + 1 < len(self._python_regex):
+                symbol = self._python_regex[idx:idx + 2]
+            regex_temp.append(SHORTCUTS.get(symbol, symbol))
+            idx += len(symbol)
+        self._python_regex = "".join(regex_temp)
